@@ -13,6 +13,7 @@ package main
 import (
 	"fmt"
 	"go/ast"
+	"go/printer"
 	"go/token"
 	"strconv"
 	"strings"
@@ -152,6 +153,126 @@ func skeleton(body *ast.BlockStmt, forwardCall func(*ast.CallExpr) bool) []ev {
 		return true
 	})
 	return evs
+}
+
+// kv: one field of a composite literal: name, printed value expression, duration in ms (when it is one)
+type kv struct {
+	k, v string
+	ms   int64
+}
+
+func render(g *lib.Gen, e ast.Expr) string {
+	var sb strings.Builder
+	if err := printer.Fprint(&sb, g.Fset(), e); err != nil {
+		lib.Fatalf("print: %v", err)
+	}
+	return strings.Join(strings.Fields(sb.String()), " ")
+}
+
+// compositeOf finds the first composite literal of the named type under n.
+func compositeOf(n ast.Node, typ string) *ast.CompositeLit {
+	var out *ast.CompositeLit
+	ast.Inspect(n, func(x ast.Node) bool {
+		if cl, ok := x.(*ast.CompositeLit); ok && out == nil && cl != n && exprName(cl.Type) == typ {
+			out = cl
+			return false
+		}
+		return true
+	})
+	return out
+}
+
+var timeUnitsMs = map[string]float64{"time.Nanosecond": 1e-6, "time.Microsecond": 1e-3, "time.Millisecond": 1, "time.Second": 1000, "time.Minute": 60000, "time.Hour": 3600000}
+
+// evalMs evaluates a duration expression: integer literals, time.<Unit>, products, sums, parentheses, time.Duration(x),
+// and `<param>.<Field>` looked up in env (the durations of the rest config literal).
+func evalMs(e ast.Expr, env []kv, param string) (float64, bool) {
+	switch t := e.(type) {
+	case *ast.BasicLit:
+		if t.Kind == token.INT || t.Kind == token.FLOAT {
+			f, err := strconv.ParseFloat(t.Value, 64)
+			return f, err == nil
+		}
+	case *ast.ParenExpr:
+		return evalMs(t.X, env, param)
+	case *ast.BinaryExpr:
+		a, ok1 := evalMs(t.X, env, param)
+		c, ok2 := evalMs(t.Y, env, param)
+		if ok1 && ok2 {
+			switch t.Op {
+			case token.MUL:
+				return a * c, true
+			case token.ADD:
+				return a + c, true
+			case token.SUB:
+				return a - c, true
+			case token.QUO:
+				if c != 0 {
+					return a / c, true
+				}
+			}
+		}
+	case *ast.SelectorExpr:
+		name := exprName(t)
+		if u, ok := timeUnitsMs[name]; ok {
+			return u, true
+		}
+		if id, ok := t.X.(*ast.Ident); ok && param != "" && id.Name == param {
+			for _, e := range env {
+				if e.k == t.Sel.Name {
+					return float64(e.ms), true
+				}
+			}
+			return 0, true // a field the rest config literal leaves at its zero value
+		}
+	case *ast.CallExpr:
+		if exprName(t.Fun) == "time.Duration" && len(t.Args) == 1 {
+			return evalMs(t.Args[0], env, param)
+		}
+	}
+	return 0, false
+}
+
+func isDurationField(name string) bool {
+	return strings.HasSuffix(name, "Timeout") || strings.HasSuffix(name, "KeepAlive") || strings.HasSuffix(name, "Deadline") || strings.HasSuffix(name, "Interval")
+}
+
+// durations: the duration-valued fields of a composite literal, in ms. A duration field whose value cannot be evaluated
+// stops the extractor: the facts would no longer say what the code does.
+func durations(g *lib.Gen, cl *ast.CompositeLit, env []kv, param string) []kv {
+	var out []kv
+	for _, el := range cl.Elts {
+		e, ok := el.(*ast.KeyValueExpr)
+		if !ok {
+			continue
+		}
+		name := exprName(e.Key)
+		if !isDurationField(name) {
+			continue
+		}
+		ms, ok := evalMs(e.Value, env, param)
+		if !ok {
+			lib.Fatalf("cannot evaluate the duration %s: %s", name, render(g, e.Value))
+		}
+		out = append(out, kv{name, render(g, e.Value), int64(ms + 0.5)})
+	}
+	return out
+}
+
+func pairsLit(l []kv) string {
+	parts := make([]string, len(l))
+	for i, e := range l {
+		parts[i] = fmt.Sprintf("(%q, %q)", e.k, e.v)
+	}
+	return "[" + strings.Join(parts, ", ") + "]"
+}
+
+func msLit(l []kv) string {
+	parts := make([]string, len(l))
+	for i, e := range l {
+		parts[i] = fmt.Sprintf("(%q, %d)", e.k, e.ms)
+	}
+	return "[" + strings.Join(parts, ", ") + "]"
 }
 
 func main() {
@@ -376,6 +497,78 @@ func main() {
 		}
 		fmt.Fprintf(&b, "/-- what dispatcher.ServeHTTP assigns to location.RawPath -/\ndef locationRawPathExpr : String := %q\n", rawPathExpr)
 		fmt.Fprintf(&b, "/-- the punctuation `escapeInvalidPathBytes` leaves alone besides letters and digits (empty: the function is gone) -/\ndef validPathPunct : List UInt8 := %s\n", bytesLit(punct))
+
+		// 8. the transport a forwarded request is sent with (EndpointInfo.ProxyTransport): which time-outs newTransport
+		// (pkg/clusters/endpoint.go) and newRESTConfig (pkg/clusters/util.go) set. A forwarded exchange has a deadline of
+		// the gateway's own exactly when one of these says so (or a time-out filter is in the chain, section 3).
+		const endpointGo, utilGo = "pkg/clusters/endpoint.go", "pkg/clusters/util.go"
+		rc := lib.FuncDecl(g.ParseFile(utilGo), "", "newRESTConfig")
+		if rc == nil {
+			lib.Fatalf("newRESTConfig not found in %s", utilGo)
+		}
+		restLit := compositeOf(rc.Body, "rest.Config")
+		if restLit == nil {
+			lib.Fatalf("newRESTConfig no longer builds a rest.Config literal")
+		}
+		restDur := durations(g, restLit, nil, "")
+		var restDialer []kv
+		if dl := compositeOf(restLit, "net.Dialer"); dl != nil {
+			restDialer = durations(g, dl, nil, "")
+		}
+		nt := lib.FuncDecl(g.ParseFile(endpointGo), "", "newTransport")
+		if nt == nil {
+			lib.Fatalf("newTransport not found in %s", endpointGo)
+		}
+		if nt.Type.Params == nil || len(nt.Type.Params.List) != 1 || len(nt.Type.Params.List[0].Names) != 1 || exprName(nt.Type.Params.List[0].Type) != "rest.Config" {
+			lib.Fatalf("newTransport no longer takes exactly one *rest.Config")
+		}
+		param := nt.Type.Params.List[0].Names[0].Name
+		trLit := compositeOf(nt.Body, "http.Transport")
+		if trLit == nil {
+			lib.Fatalf("newTransport no longer builds an http.Transport literal")
+		}
+		var fields []kv
+		for _, el := range trLit.Elts {
+			e, ok := el.(*ast.KeyValueExpr)
+			if !ok {
+				lib.Fatalf("http.Transport literal of newTransport has an element without a key")
+			}
+			fields = append(fields, kv{exprName(e.Key), render(g, e.Value), 0})
+		}
+		trDur := durations(g, trLit, restDur, param)
+		var fbDialer []kv
+		if dl := compositeOf(nt.Body, "net.Dialer"); dl != nil {
+			fbDialer = durations(g, dl, restDur, param)
+		}
+		wrap := ""
+		ast.Inspect(nt.Body, func(n ast.Node) bool {
+			if c, ok := n.(*ast.CallExpr); ok && len(c.Args) == 1 {
+				if u, ok := c.Args[0].(*ast.UnaryExpr); ok && u.X == ast.Expr(trLit) {
+					wrap = exprName(c.Fun)
+				}
+			}
+			return true
+		})
+		// every place of the package where a field of an *http.Transport is ASSIGNED after construction would escape the literal
+		assigned := []string{}
+		for _, rel := range []string{endpointGo, utilGo} {
+			ast.Inspect(g.ParseFile(rel), func(n ast.Node) bool {
+				if as, ok := n.(*ast.AssignStmt); ok {
+					for _, l := range as.Lhs {
+						if se, ok := l.(*ast.SelectorExpr); ok && (strings.HasSuffix(se.Sel.Name, "Timeout") || se.Sel.Name == "Deadline") {
+							assigned = append(assigned, rel+": "+exprName(l))
+						}
+					}
+				}
+				return true
+			})
+		}
+		fmt.Fprintf(&b, "/-- the fields of the `http.Transport` literal in newTransport (%s), in source order, with their value expressions -/\ndef transportFields : List (String × String) := %s\n", endpointGo, pairsLit(fields))
+		fmt.Fprintf(&b, "/-- those of them that are durations, in milliseconds (`%s.X` resolved through the literal of newRESTConfig) -/\ndef transportDurationsMs : List (String × Nat) := %s\n", param, msLit(trDur))
+		fmt.Fprintf(&b, "/-- the function the literal is handed to -/\ndef transportWrap : String := %q\n", wrap)
+		fmt.Fprintf(&b, "/-- the dialer newTransport falls back to when the rest config has none -/\ndef fallbackDialerMs : List (String × Nat) := %s\n", msLit(fbDialer))
+		fmt.Fprintf(&b, "/-- durations of the `rest.Config` literal in newRESTConfig (%s) and of its dialer -/\ndef restConfigDurationsMs : List (String × Nat) := %s\ndef restDialerMs : List (String × Nat) := %s\n", utilGo, msLit(restDur), msLit(restDialer))
+		fmt.Fprintf(&b, "/-- assignments to a `…Timeout` / `Deadline` field anywhere in those two files (outside the literals) -/\ndef timeoutAssignments : List String := %s\n", lib.LeanStrList(assigned))
 
 		b.WriteString("end KG.Gen.C04\n")
 		g.Emit("C04.lean", b.String())
